@@ -17,7 +17,10 @@ import (
 type lsOpts struct {
 	Mode    string `json:"mode"`    // long-lived | persisted
 	Backend string `json:"backend"` // mem | fs | fsbin (persisted only)
-	Cfg     engine.Config
+	// DbRes serves the application through resource.DbResource over db/mem (the library's own
+	// translation lookup) instead of the harness's recording resource.
+	DbRes bool `json:"db_resource,omitempty"`
+	Cfg   engine.Config
 }
 
 var scratchSeq int
@@ -65,6 +68,9 @@ func lockstep(a *app.App, o lsOpts, inputs []string, visit func(k int, rv *ref.V
 func lockstepEnv(a *app.App, o lsOpts, inputs []string, pick func(label string, n int) int, visit func(k int, rv *ref.VM, got app.Resp, want ref.Resp)) (sig, msg string, reqs int) {
 	s, cleanup := openBackend(a, o)
 	defer cleanup()
+	if o.DbRes {
+		s.Res = app.NewDbRes(a, s.Env)
+	}
 	rv := newRef(a, o.Mode, o.Cfg)
 	s.Env.Answer, rv.Env.Answer = pick, pick
 	cacheComparable := true
